@@ -52,7 +52,28 @@ Proof.
   inversion E. split; reflexivity.
 Qed.
 
+(* (4) Interchangeability stated on the verification decisions themselves: for a generated pair, ANY result of
+   derivation from sk, and ANY result of deserialising the serialised pk, is the generated struct, hence
+   every verify / hash_verify call gives the same answer (value, error or otherwise) with either key,
+   for every message, signature and context. *)
+Theorem C11_interchangeable : forall H, HashLaws H -> forall P, In P all_params -> forall xi pk sk,
+  keygen_from_seed H P xi = Ok (pk, sk) ->
+  forall pk_d pkb pk_s, get_public_key H P sk = Ok pk_d -> pk_into_bytes P pk = Ok pkb -> pk_try_from_bytes H P pkb = Ok pk_s ->
+  pk_d = pk /\ pk_s = pk /\
+  (forall m sg ctx, verify H P pk_d m sg ctx = verify H P pk m sg ctx /\ verify H P pk_s m sg ctx = verify H P pk m sg ctx) /\
+  (forall m sg ctx ph, hash_verify H P pk_d m sg ctx ph = hash_verify H P pk m sg ctx ph /\
+                       hash_verify H P pk_s m sg ctx ph = hash_verify H P pk m sg ctx ph).
+Proof.
+  intros H HL P HP xi pk sk E pk_d pkb pk_s Ed Eb Es.
+  destruct (C11_derived_after_roundtrip H HL P HP xi pk sk E) as (pkb' & skb & sk' & _ & _ & _ & Eb' & Es').
+  assert (D : pk_d = pk) by (pose proof (C11_derived_is_generated H HL P HP xi pk sk E) as E1; congruence).
+  assert (Hb : pkb' = pkb) by congruence. subst pkb'.
+  assert (S : pk_s = pk) by congruence.
+  subst pk_d pk_s. repeat split.
+Qed.
+
 Print Assumptions C11_derived_is_generated.
+Print Assumptions C11_interchangeable.
 Print Assumptions C11_derived_after_roundtrip.
 Print Assumptions C11_derived_is_FIPS204_t1.
 Print Assumptions C11_derived_copies_rho_tr.
